@@ -14,3 +14,107 @@ ASSUMPTIONS = cm.ASSUME_CORE + ['position argument of each call site is the posi
 LEVEL_TEXT = 'Proves the contract of latex_error: the result is one or two fixed Text tokens whose concatenated text is the complete mark " <mark> " (plus the verbose part), the first at pos, all inside the text when pos is; the diagnostic line/column are the 1-based line and column of pos (count/rfind axioms); one diagnostic per call (ghost counter). Call sites: every use of the result keeps both pieces (obligation mark-complete at each subscript of a latex_error result; the scanner joins them in error_token, whose contract says the single token carries the complete mark at the error position). arg_buffer builds its own mark only after calling latex_error. NOT decided: that no text beyond the faulty construct is lost, and that a well-formed document produces neither mark nor diagnostic.'
 LEVEL_NOTE = 'Whole-pipeline parts of the sentence (text after the fault preserved, silence on well-formed input) are outside per-function contracts.'
 TECHNIQUE = 'contract-based deductive verification: per-function postconditions and loop invariants over the real AST, z3; end-to-end sentence of the property not decided'
+
+
+def faults_small_documents(seed):
+    """the sentence of the property on a catalogue of single faults: for each
+    of 15 faulty sources (unterminated inline / displayed maths in five
+    spellings, open mandatory / optional argument at the end of the text,
+    unterminated \\verb / verbatim, unclosed skip comment, accent on a
+    non-letter, unreadable \\LTinput file) and each of three option sets
+    (default, --seqs, lang=de): exactly one diagnostic, the complete mark in
+    the plain text (at least once), the first character of a mark mapped
+    to the line / column the diagnostic names; for open maths the words
+    after the end of the paragraph survive.  The repaired sources give
+    neither mark nor diagnostic."""
+    import contextlib
+    import io
+    import re
+    from pyvc import replay as _r
+    t2t = _r.real_module('yalafi.tex2txt')
+    tail = '\n\nTail gamma.\n'
+    faulty = [
+        ('A $x = 1 rest' + tail, True), ('A \\(x = 1 rest' + tail, True),
+        ('A \\[ x = 1 ' + tail, True),
+        ('A \\begin{equation} x = 1. ' + tail, True),
+        ('A $$ x = 1 ' + tail, True),
+        ('Alpha \\label{beta', False), ('Alpha \\section{beta', False),
+        ('Alpha \\section[beta', False),
+        ('Alpha \\verb|beta', False),
+        ('Alpha\n\\begin{verbatim}\nbeta\n', False),
+        ('Alpha\n%%% LT-SKIP-BEGIN\nbeta\n', False),
+        ("Alpha \\'{1} beta", False),
+        ('Alpha \\LTinput{/nonexistent-dir/x.tex} beta', False),
+        # the same fault twice gives two diagnostics and two marks
+        ('Alpha \\LTinput{/nonexistent-dir/x.tex} beta\n'
+         '\\LTinput{/nonexistent-dir/x.tex} gamma', 2),
+        ("Alpha \\'{1} beta \\'{1} gamma", 2)]
+    sound = ['A $x = 1$ rest' + tail, 'A \\[ x = 1 \\]' + tail,
+             'A \\begin{equation} x = 1. \\end{equation}' + tail,
+             'Alpha \\textbf{beta}', 'Alpha \\verb|beta|',
+             "Alpha \\'{a} beta"]
+    optsets = [{}, {'seqs': True}, {'lang': 'de'}]
+    n, fails = 0, []
+
+    def run(src, kw):
+        err = io.StringIO()
+        with contextlib.redirect_stderr(err):
+            txt, pos = t2t.tex2txt(src, t2t.Options(**kw))
+        return txt, pos, err.getvalue()
+    mark = 'LATEXXXERROR'
+    for kw in optsets:
+        for src, maths in faulty:
+            n += 1
+            try:
+                txt, pos, err = run(src, kw)
+            except BaseException as e:      # noqa
+                fails.append({'source': src, 'options': kw,
+                              'why': 'exception %r' % (e,)})
+                continue
+            diags = re.findall(r'LaTeX error: line (\d+), column (\d+)',
+                               err)
+            why = None
+            if maths == 2:
+                if len(diags) != 2 or txt.count(mark) < 2:
+                    why = 'two faults: %d diagnostics, %d marks' % (
+                        len(diags), txt.count(mark))
+            elif len(diags) != 1:
+                why = '%d diagnostics' % len(diags)
+            elif txt.count(mark) < 1:
+                why = 'diagnostic, but no mark in %r' % (txt,)
+            else:
+                # (an argument left open at the end of the text shows the
+                # mark twice by design -- "HACK, see Issue 23" in arg_buffer
+                # -- the property asks for the mark at the place of the
+                # diagnostic, not for its uniqueness)
+                where = []
+                for m_ in re.finditer(mark, txt):
+                    # the mark is ` LATEXXXERROR `: its first character is
+                    # the blank before the word
+                    i = m_.start()
+                    p0 = pos[i - 1] - 1 if i > 0 else pos[i] - 1
+                    lin0 = src.count('\n', 0, p0) + 1
+                    col0 = p0 - (src.rfind('\n', 0, p0) + 1) + 1
+                    where.append((str(lin0), str(col0)))
+                if diags[0] not in where:
+                    why = 'mark at line/column %s, diagnostic says %s' % (
+                        where, diags[0])
+                if why is None and maths is True and not (
+                        'Tail' in txt and 'gamma.' in txt):
+                    why = 'text after the paragraph lost: %r' % txt
+            if why:
+                fails.append({'source': src, 'options': kw, 'why': why})
+        for src in sound:
+            n += 1
+            txt, pos, err = run(src, kw)
+            if mark in txt or 'LaTeX error' in err:
+                fails.append({'source': src, 'options': kw,
+                              'why': 'mark / diagnostic on a well-formed '
+                              'source: %r %r' % (txt, err)})
+    return {'name': 'faults-give-one-diagnostic-and-one-mark-at-its-place',
+            'bounded': True,
+            'bound': '15 faulty + 6 well-formed sources x 3 option sets',
+            'evaluations': n, 'failures': fails[:8]}
+
+
+QUICK_BOUNDED = [faults_small_documents]
